@@ -6,7 +6,7 @@ use crate::tok::{R, W};
 use bed_utils::bed::{merge_sorted_bed, merge_sorted_bed_with, GenomicRange};
 
 fn enc(xs: &[Rec]) -> Vec<String> { let mut w = W::new(); w.n(xs.len()); for r in xs { r.put(&mut w); } w.0 }
-fn dec(t: &[String]) -> Option<Vec<Rec>> { let mut r = R::new(t); r.list(Rec::get) }
+fn dec(t: &[String]) -> Option<Vec<Rec>> { let (t, _) = split_flavour(t); let mut r = R::new(t); r.list(Rec::get) }
 
 pub fn sort_recs(xs: &mut Vec<Rec>) { xs.sort_by(|a, b| a.chrom.as_bytes().cmp(b.chrom.as_bytes()).then(a.start.cmp(&b.start)).then(a.end.cmp(&b.end))); }
 fn valid(xs: &[Rec]) -> bool {
@@ -15,9 +15,13 @@ fn valid(xs: &[Rec]) -> bool {
 
 fn exec(t: &[String]) -> Option<String> {
     let xs = dec(t)?;
-    let grs: Vec<GenomicRange> = xs.iter().map(|r| r.gr()).collect();
-    let groups: Vec<Vec<GenomicRange>> = merge_sorted_bed_with(grs.clone(), |g| g).collect();
-    let merged: Vec<GenomicRange> = merge_sorted_bed(grs).collect();
+    let fl = split_flavour(t).1;
+    // grouping and merged ranges depend on (chrom, start, end) only, whatever type carries them
+    let (groups, merged): (Vec<Vec<GenomicRange>>, Vec<GenomicRange>) = crate::with_bedlikes!(fl, &xs, |recs| {
+        use bed_utils::bed::BEDLike;
+        let groups = merge_sorted_bed_with(recs.clone(), |g| g).map(|g| g.iter().map(|x| x.to_genomic_range()).collect()).collect();
+        (groups, merge_sorted_bed(recs).collect())
+    });
     let mut w = W::new();
     w.n(groups.len());
     for g in &groups { w.n(g.len()); for x in g { put_gr(&mut w, x); } }
@@ -34,7 +38,11 @@ fn shrink(t: &[String]) -> Vec<Vec<String>> {
         for s in shrink_u64(xs[i].start) { let mut d = xs.clone(); d[i].start = s; out.push(d); }
         for e in shrink_u64(xs[i].end) { let mut d = xs.clone(); d[i].end = e; out.push(d); }
     }
-    out.into_iter().filter(|v| valid(v)).map(|v| enc(&v)).collect()
+    let fl = split_flavour(t).1;
+    let mut res: Vec<Vec<String>> = vec![];
+    if fl != 0 { res.push(enc(&xs)); }
+    res.extend(out.into_iter().filter(|v| valid(v)).map(|v| push_flavour(enc(&v), fl)));
+    res
 }
 
 pub fn gen_sorted_recs(rng: &mut Rng, n: usize, max: u64, base: u64, zero_len: bool) -> Vec<Rec> {
@@ -66,12 +74,14 @@ fn gen(rng: &mut Rng, tier: Tier) -> Vec<Case> {
     }
     for i in 0..nb {
         let n = match i % 20 { 0 => 0, 1 => 1, _ => rng.range(2, 8) as usize };
-        out.push(Case::new("boundary", enc(&gen_sorted_recs(rng, n, 16, 0, true))));
+        let f = gen_flavour(rng);
+        out.push(Case::new("boundary", push_flavour(enc(&gen_sorted_recs(rng, n, 16, 0, true)), f)));
     }
     for _ in 0..nr {
         let n = rng.range(5, 150) as usize;
         let base = match rng.below(4) { 0 => u64::MAX - 100_000, 1 => rng.below(1 << 50), _ => 0 };
-        out.push(Case::new("random", enc(&gen_sorted_recs(rng, n, 3000, base, true))));
+        let f = gen_flavour(rng);
+        out.push(Case::new("random", push_flavour(enc(&gen_sorted_recs(rng, n, 3000, base, true)), f)));
     }
     out
 }
@@ -80,7 +90,7 @@ pub fn prop() -> PropDef {
     PropDef {
         id: "C07",
         rule: "corpus, then sorted record sequences: small (0-9 records, coordinates 0..20, 1-3 chromosomes incl. prefix names; duplicates, nested, book-ended, zero-length, gap of one base, same coordinates on consecutive chromosomes) and large (5-150 records, offsets up to u64::MAX-1e5). Non-trivial: >= 2 records, >= 2 groups, some group of size >= 2. Thorough adds the exhaustive small scope: every sorted sequence of <= 4 records over 2 chromosomes with coordinates 0..=3. Distinct = distinct input token sequence.",
-        observable: "groups handed to the closure of merge_sorted_bed_with (in order), and the output of merge_sorted_bed",
+        observable: "groups handed to the closure of merge_sorted_bed_with (in order), and the output of merge_sorted_bed; the records are carried by every BEDLike implementor and field variant",
         gen, exec, shrink, child: None,
     }
 }
